@@ -707,7 +707,20 @@ class Engine(Conc, Executor, Calls):
     def on_block(self, fr, st, ins, chans, blocking):
         """blocking points of a function declared `cancellable <ctx>`: one case must wait on ctx.Done()"""
         c = self.cur
-        if c is None or self.quiet or not blocking or fr.fn is not c.get("fn"):
+        if c is None or self.quiet or not blocking:
+            return
+        pr = c["decl"].get("prompt") if c.get("decl") is not None else None
+        if pr:
+            # `prompt`: every wait of this function (and of what it inlines) has a receive case on a channel that is
+            # non-nil and promised (a value is there, or is delivered by a goroutine / timer without further input)
+            o = self.obl("blocking", "prompt", pr[0].tags or None)
+            o.instances += 1
+            if any(d == "recv" and self.is_promised(st, ch) for (d, ch) in chans):
+                o.proved += 1
+            else:
+                o.failed.append({"pos": ins.get("pos"), "model": first_model(st), "reason": "waits on %s: no case is a receive from a channel that is non-nil and has a value promised" % (
+                    ", ".join("%s %s" % (d, ("nil channel" if (isinstance(ch, ChanV) and ch.nil is True) else str(getattr(ch, "ref", ch)))) for (d, ch) in chans))})
+        if fr.fn is not c.get("fn"):
             return
         cl = c["decl"].get("cancellable")
         if not cl:
@@ -819,6 +832,26 @@ class Engine(Conc, Executor, Calls):
         rtypes = [r["type"] for r in fn["results"]]
         mods = decl.get("modifies")
         self.lock_effect_obligations(decl, fn, rets, entry_held)
+        if decl.get("promises") and not self.quiet:
+            for out in rets:
+                rn0 = dict(names)
+                self.bind_results(rn0, fn, out.results, rtypes)
+                try:
+                    pl = self.promises_of(out.st, decl, full, [], extra_names=rn0)
+                except (SpecError, Unsupported) as e:
+                    pl = []
+                    o = self.obl("blocking", "promises", decl.get("promises")[0].tags or None)
+                    o.instances += 1
+                    o.unknown.append({"pos": out.info, "reason": "spec error: %s" % e})
+                for (pcl, pch) in pl:
+                    o = self.obl("blocking", "promises:%s" % pcl.text.strip(), pcl.tags or None)
+                    o.instances += 1
+                    nsend = sum(1 for e in out.st.trace if e.kind == "chan" and e.name in ("send", "select-send") and e.args
+                                and isinstance(e.args[0], ChanV) and self.chan_key(e.args[0]) == self.chan_key(pch))
+                    if self.is_promised(out.st, pch) or nsend == 1:
+                        o.proved += 1      # promised, or this very activation performed the one send (room in the buffer is checked where the channel is made: at the go statement)
+                    else:
+                        o.failed.append({"pos": out.info, "reason": "returns without a value sent, or a goroutine / timer promised to send one, on %s" % pcl.text.strip()})
         for out in rets:
             s2 = out.st
             rn = dict(names)
